@@ -73,6 +73,25 @@ def check_one(acc: core.Acc, s: str, multiline: bool, embed: bool) -> None:
         acc.fail('not_inverse', case, f's={s!r} multiline={multiline} escaped={esc!r} tokenizes to {got!r}',
                  multiline=multiline)
         return
+    if '\n' in esc or '\r' in esc:
+        # the escaped text spans lines: deliver it the way files are read (a text file object, a list of lines)
+        import io as _io
+        whole = '"' + esc + '"\n'
+        for dname, data in (('StringIO', _io.StringIO(whole)), ('lines', whole.splitlines(keepends=True)),
+                            ('StringIO_crlf', _io.StringIO(whole, newline=''))):
+            acc.evaluations += 1
+            out = []
+            try:
+                for t, v in Tokenizer(data, None, allow_escapes=True):
+                    out.append((t.name, v))
+                    if len(out) > len(whole) + 2:
+                        break
+            except Exception as exc:  # noqa: BLE001
+                out.append(('EXC', f'{type(exc).__name__}: {exc}'))
+            if out != [('STRING', s), ('NEWLINE', '\n')]:
+                acc.fail('not_inverse', dict(case, delivery=dname), f's={s!r} multiline={multiline} escaped={esc!r} read from a {dname} tokenizes to {out!r}',
+                         multiline=multiline, delivery=dname)
+                return
     # the other ways of consuming a tokenizer hand back the same string: tok() calls, skipping_newlines(), expect(), peek + call
     if len(s) <= 3:
         text = '"' + esc + '"\n'
@@ -317,7 +336,20 @@ def writer_sites():
                 out.extend(['replace01', '$' + var + ' ' + val])
         return out
 
+    def rd_output(comma):
+        def rd(text):
+            [kv] = list(Keyvalues.parse(text))
+            o = Output.parse(kv)
+            sep = ',' if comma else '\x1b'
+            name = ('instance:' + o.inst_out + ';' if o.inst_out else '') + o.output
+            inp = ('instance:' + o.inst_in + ';' if o.inst_in else '') + o.input
+            return [name, sep.join([o.target, inp, o.params, format(o.delay, 'g'), str(o.times)])]
+        return rd
+
     readers = {'vmf.fixup': rd_vmf_fixup, 'kv': rd_kv, 'vmf.key': rd_vmf_ent, 'vmf.value': rd_vmf_ent, 'vmf.comments': rd_vmf_ent, 'bsp': rd_bsp, 'dmx': rd_dmx}
+    for comma in (False, True):
+        for field in ('out', 'targ', 'inp', 'param', 'inst_out', 'inst_in'):
+            readers[f'output.{field}.{"comma" if comma else "esc"}'] = rd_output(comma)
     _REAL_READERS.update(readers)
 
     sites = {
@@ -339,7 +371,8 @@ def writer_sites():
 _SITES: dict = {}
 _REAL_READERS: dict = {}
 SITE_EXTRA = ['\x00', '\ufeff', '\u00df', '\x1b',      # only for the writer/reader call-site strings
-              '\x1c', '\x1d', '\x1e', '\x85', '\u2028', '\u2029']      # what str.splitlines() treats as line breaks besides CR / LF
+              '\x1c', '\x1d', '\x1e', '\x85', '\u2028', '\u2029',      # what str.splitlines() treats as line breaks besides CR / LF
+              '%', 'b', 'd', 's', '{', '}', ',']           # printf / str.format metacharacters, the output separator
 
 
 def real_reader_for(name: str):
@@ -354,8 +387,8 @@ def check_sites(acc: core.Acc, s: str, only_prefix: tuple = ()) -> None:
             continue
         if single_line and ('\n' in s or '\r' in s):
             continue          # names are single-line by the format (readers reject line breaks in keys)
-        if name.startswith('output.') and ((',' in s and 'comma' in name) or '\x1b' in s or (';' in s and 'inst' in name)):
-            continue          # an output field cannot contain its own separator
+        if name.startswith('output.') and ((',' in s and 'comma' in name and 'param' not in name) or '\x1b' in s or (';' in s and 'inst' in name)):
+            continue          # an output field cannot contain its own separator (the parameter may: spare commas belong to it)
         if name.startswith('bsp.') and (not s.isascii() or '\x1b' in s or s == '\x00'):
             continue          # the entity lump is ASCII (+surrogateescape bytes); ESC makes a value an output; a lone NUL token is the lump terminator
         acc.evaluations += 1
